@@ -291,11 +291,30 @@ FORBIDDEN_RE = re.compile(r"\b(Admitted|admit|Axiom|Axioms|Parameter|Parameters|
 SECTION_VAR_RE = re.compile(r"^\s*(Variable|Variables|Hypothesis|Hypotheses|Context)\b")
 
 
-def forbidden_words():
+def cone_files(prop):
+    """The .v files of a property's project fragment plus the shared 00-* fragments."""
+    d = os.path.join(COQ, "proj")
+    out = []
+    for fn in sorted(os.listdir(d)):
+        if fn.endswith(".list") and (fn.startswith("00-") or fn[:-5].upper() == prop.upper()):
+            for line in open(os.path.join(d, fn)):
+                line = line.strip()
+                if line and not line.startswith("#"):
+                    out.append(os.path.join(COQ, line))
+    return out
+
+
+def forbidden_words(prop=None):
     """The development must not contain admitted proofs, declared axioms or switched-off checks.
-    Comments and string literals are ignored; Variable/Hypothesis/Context only inside a Section."""
+    Comments and string literals are ignored; Variable/Hypothesis/Context only inside a Section.
+    With prop: only that property's files and the shared cores (a check is not failed by another
+    property's unfinished file); without: every .v file under coq/ (setup.sh)."""
     bad = []
-    for root, _, files in os.walk(COQ):
+    if prop:
+        todo = [(os.path.dirname(p), [os.path.basename(p)]) for p in cone_files(prop) if os.path.exists(p)]
+    else:
+        todo = [(root, files) for root, _, files in os.walk(COQ)]
+    for root, files in todo:
         for fn in sorted(files):
             if not fn.endswith(".v"):
                 continue
@@ -382,7 +401,7 @@ def standard_run(spec, tier, replay=None):
     coverage = {}
     try:
         # 0. hygiene
-        bad = forbidden_words()
+        bad = forbidden_words(prop)
         if bad:
             p = write_replay(prop, dict(kind="forbidden-construct", lines=bad))
             violations.append((p, "no-failing-input-found"))
